@@ -17,6 +17,8 @@ N(n) == U!FromNat(n)
 Ids == {N(k) : k \in 0..(NIds - 1)}
 Contents == {<<1>>, <<2>>, <<1, 1>>}
 Empty == <<>>
+CONSTANT Colliding                 \* FALSE: the hash is the identity; TRUE: <<1>> and <<2>> collide (control)
+Hash(c) == IF Colliding /\ c = <<2>> THEN <<1>> ELSE c
 
 VARIABLES abs, tileById, dataByHash, idsByHash, reply
 INSTANCE TileStore
@@ -33,7 +35,7 @@ Next == DoAdd \/ DoAddEmpty \/ DoRemove \/ DoGet \/ DoList \/ DoCount \/ DoSave
 Spec == Init /\ [][Next]_vars
 
 \* what the library's finish() iterates over: the projection of the implementation state
-Proj == {<<x[1], x[3]>> : x \in tileById}
+Proj == {<<x[1], ContentOfEntry(x, dataByHash)>> : x \in tileById}
 
 WitnessOK ==
   LET T == A!CanonTiles(abs, Len)
